@@ -497,9 +497,20 @@ def _run(ctx):
     base = [dict(c, count_lines=True) if c["timing"] == "before" else c for c in thorough_base(ctx, calls)]
     res = run_batch(ctx, base, 4, window, samples_wanted=2)
     nlines = lines_measured(ctx, res)
-    rest = thorough_during(ctx, calls, nlines) + thorough_extra(ctx, calls)
+    during = thorough_during(ctx, calls, nlines)
+    # a floor of preemption cases per call runs whatever the load (named points + three lines per
+    # call); the rest of the sweep, the TCP medium and the timeout variants run until the time cap
+    floor, rest, seen = [], [], {}
+    for c in during:
+        if c.get("at") or seen.get(c["call"], 0) < 3 and c["medium"] == "link" and c["k"] % 3 == 1:
+            seen[c["call"]] = seen.get(c["call"], 0) + (0 if c.get("at") else 1)
+            floor.append(c)
+        else:
+            rest.append(c)
+    run_batch(ctx, floor, 4, window, samples_wanted=1)
+    rest += thorough_extra(ctx, calls)
     ctx.rng.shuffle(rest)
-    ctx.note("thorough_cases_planned_this_shard", len(base) + len(rest))
+    ctx.note("thorough_cases_planned_this_shard", len(base) + len(floor) + len(rest))
     run_batch(ctx, rest, 4, window, stop_at=stop_at, samples_wanted=1)
     ctx.require("cases_run", 24 * len(names))
     ctx.require("calls_completed_after_loss", 20 * len(names))
